@@ -68,14 +68,14 @@ TIMEOUT = {"quick": 1500, "thorough": 6 * 3600}
 RULE = ("case = one reactive session of 0.2-0.9 M cycles on the real-constant USBResetSequencer: FS/LS-only playground or one "
         "of six HS plans (resume+FS suspend, HS reset chain, handshake time-out, handshake exits, suspend reset, random walk); "
         "durations drawn around 150/300/12000/150000/180000 cycles, 1-3 cycle glitches, restriction / VBUS / disconnect / "
-        "bus_busy toggles; non-trivial = >= 2 judged bus resets and one judged HS entry, suspend entry or restricted reset; "
+        "bus_busy toggles; non-trivial = >= 2 judged bus resets and one judged handshake, HS entry, suspend entry or restricted reset; "
         "distinct = hash of all input changes")
 REQUIRED_BINS = [
     "reset_vbus_absent", "reset_fs_5us", "reset_suspended_2p5us", "reset_hs_3ms_200us",
     "se0_just_below_5us_no_reset", "se0_split_by_glitch", "se0_just_below_2p5us_suspended",
     "hs_via_chirp", "hs_via_resume", "train_state_just_below_2p5us", "train_state_split_by_glitch",
     "train_two_pairs_then_junk", "handshake_timeout_fallback", "handshake_deadline_inside_chirp_state",
-    "suspend_fs", "suspend_ls", "suspend_hs", "idle_split", "non_idle_prefix_before_idle_fs",
+    "suspend_fs", "suspend_ls", "suspend_hs", "idle_split", "non_idle_prefix_before_idle_fs", "non_idle_3ms_no_suspend",
     "restriction_at_hs", "restriction_in_hs_detect_window",
     "reset_while_restricted", "restriction_toggled_near_reset", "hs_window_j_at_decision", "hs_window_nonj_at_decision",
     "hs_se0_split", "fs_suspend_after_hs_suspend", "disconnect_used", "bus_busy_used", "vbus_loss_at_hs",
@@ -572,7 +572,7 @@ async def fs_suspend(d, variant=None):
     rng = d.rng
     idle = d.idle()
     if variant is None:
-        variant = rng.choice(["plain", "split", "split", "wrong_prefix", "wrong_prefix", "wrong_prefix"])
+        variant = rng.choice(["plain", "split", "split", "split", "wrong_prefix", "wrong_prefix", "wrong_prefix"])
     other = [x for x in (FS_J, FS_K, SE1) if x != idle]
     other += [FS_J + FS_K - idle] * 3            # mostly the J of the other speed (= the K of this one)
     if variant == "wrong_only":
@@ -860,7 +860,7 @@ async def fs_to_handshake(d, kind, busy_p=0.4, restr_p=0.4):
 
 
 WINDOW_SUSPEND = ["j", "late_j", "late_j", "blip"]
-WINDOW_RESET = ["se0", "k", "j_then_se0", "j_then_se0"]
+WINDOW_RESET = ["se0", "k", "j_then_se0", "j_then_se0", "j_then_se0"]
 
 
 async def hs_idle_episode(d, variants, restrict_p):
@@ -1377,4 +1377,5 @@ def run_case(rng, tier, res):
                      "hs_episodes": len(info["hs_runs"]), "suspends": len(info["susp_runs"]),
                      "chirp_episodes": len(info["chirp_runs"])})
     judged_resets = res.events.get("bus_reset_periods_judged", 0)
-    res.nontrivial = judged_resets >= 2 and bool(info["hs_runs"] or info["susp_runs"] or res.bins.get("reset_while_restricted"))
+    res.nontrivial = judged_resets >= 2 and bool(info["hs_runs"] or info["susp_runs"] or info["chirp_runs"]
+                                                 or res.bins.get("reset_while_restricted"))
